@@ -112,6 +112,10 @@ def run(chk):
         buflen = 4096 if d == "a" and len(m) % 3 else 65536
         for r in wiregen.RESIDUES:
             ops.append("dnsdec %s %d %s %s" % (d, buflen if d == "a" else 0, r, hx(m)))
+        # small caller buffers (get_external_ip passes the 4 bytes of a struct in_addr)
+        if d == "a" and len(m) % 5 == 0:
+            for small in (1, 4, 16, 100):
+                ops.append("dnsdec a %d 00 %s" % (small, hx(m)))
         # readname directly at offset 12 as well
         if len(m) >= 13:
             for r in wiregen.RESIDUES[:3]:
